@@ -126,7 +126,6 @@ func (c14) Cases(tier string, seed uint64) []fw.Case {
 		CapConflict: fw.KFOpen(KFCapConflict),
 		CastMulti:   fw.KFOpen(KFCastOrder),
 		MultiSingl:  fw.KFOpen(KFInitOrder),
-		EqMixed:     fw.KFOpen(KFEqMixed),
 		Mangle:      fw.KFOpen(KFMangleCollide),
 	}
 	add := func(id string, kind string, b Built, pl Payload) {
@@ -145,7 +144,6 @@ func (c14) Cases(tier string, seed uint64) []fw.Case {
 				CapConflict: !open.CapConflict && fr.Chance(1, 3),
 				CastMulti:   !open.CastMulti && fr.Chance(1, 3),
 				MultiSingl:  !open.MultiSingl && fr.Chance(1, 3),
-				EqMixed:     !open.EqMixed && fr.Chance(1, 4),
 				Mangle:      !open.Mangle && fr.Chance(1, 3),
 			}
 			b := Families[fam](fr, p)
@@ -164,7 +162,6 @@ func (c14) Cases(tier string, seed uint64) []fw.Case {
 		{"capconflict", open.CapConflict, "impl", Poison{CapConflict: true}, false},
 		{"castmulti", open.CastMulti, "objects", Poison{CastMulti: true}, false},
 		{"initorder", open.MultiSingl, "modules", Poison{MultiSingl: true}, true},
-		{"eqmixed", open.EqMixed, "objects", Poison{EqMixed: true}, false},
 		{"mangle", open.Mangle, "locals", Poison{Mangle: true}, false},
 		{"mangle-modules", open.Mangle, "modules", Poison{Mangle: true}, false},
 	} {
@@ -470,6 +467,11 @@ func (c14) Run(c fw.Case) fw.Result {
 	res.Obs["repetitions"] = int64(reps)
 	res.Obs["interferer_runs"] = int64(altRuns)
 	res.Obs["vm_steps_plus_tree_steps"] = first.Steps * int64(reps)
+	if first.Ran {
+		res.Cover = append(res.Cover, "ran:"+p.Fam)
+	} else {
+		res.Cover = append(res.Cover, "not-run:"+p.Fam)
+	}
 	if first.Ran {
 		res.Cover = append(res.Cover, "ran", "vm-outcome:"+outcomeClass(first.VMOutcome), "tree-outcome:"+outcomeClass(first.TreeOutcome))
 	} else if first.Syntax != "" || first.Diags != "" {
